@@ -224,7 +224,7 @@ fn deep_case(em: &mut Emitter, depth: usize, form: u8, op: u8) {
 pub fn run(em: &mut Emitter, rng: &mut Rng, thorough: bool) {
     let ctxs = [Ctx::Top, Ctx::Definite, Ctx::Indefinite];
     // ---- 101: programs over systematically damaged encodings
-    for _ in 0..(if thorough { 1500 } else { 150 }) {
+    for _ in 0..(if thorough { 6_000 } else { 150 }) {
         let mode = rng.below(3) as u8;
         let ctx = *rng.pick(&ctxs);
         if !ctx_ok(mode, ctx) { continue }
@@ -243,7 +243,7 @@ pub fn run(em: &mut Emitter, rng: &mut Rng, thorough: bool) {
             if rng.chance(1, 3) { let mut v = data[..k].to_vec(); v.extend_from_slice(big); v.extend_from_slice(&data[k + 1..]); entry_case(em, mode, &ps, &v); } } }
     }
     // random garbage with structure octets
-    for _ in 0..(if thorough { 300_000 } else { 20_000 }) {
+    for _ in 0..(if thorough { 1_200_000 } else { 20_000 }) {
         let mode = rng.below(3) as u8;
         let n = rng.range(0, 14) as usize;
         let mut d = rng.bytes(n);
@@ -253,7 +253,7 @@ pub fn run(em: &mut Emitter, rng: &mut Rng, thorough: bool) {
     }
     // ---- 102: typed decoders and accessors on hostile contents
     let tags = [0x01u8, 0x02, 0x03, 0x04, 0x05, 0x06, 0x0c, 0x12, 0x13, 0x16, 0x23, 0x24, 0x2c, 0x30];
-    for _ in 0..(if thorough { 400_000 } else { 30_000 }) {
+    for _ in 0..(if thorough { 1_600_000 } else { 30_000 }) {
         let mode = rng.below(3) as u8;
         let tag = *rng.pick(&tags);
         let n = rng.range(0, 9) as usize;
